@@ -1,7 +1,8 @@
 #!/bin/sh
-# builds the engine offline
+# builds the engine offline into <this dir>/bin/symgo
 set -e
-cd /verif/symgo
+D=$(cd "$(dirname "$0")" && pwd)
+cd "$D/symgo"
 export GOFLAGS=-mod=mod GOPROXY=off GOSUMDB=off GOTOOLCHAIN=local
-mkdir -p /verif/bin
-go1.26.8 build -o /verif/bin/symgo .
+mkdir -p "$D/bin"
+go1.26.8 build -o "$D/bin/symgo" .
